@@ -287,6 +287,16 @@ def impl_case(case, workdir):
                 dnp.save(obj, given, overwrite=np.bool_(ow))           # the result of a NumPy comparison
             elif form == "kw-none" and not ow:
                 dnp.save(obj, given, overwrite=None)
+            elif form in ("direct-omitted", "direct-kw", "direct-positional"):
+                # the h5 writer itself (dnplab.io.h5.save_h5 is public): same guard, same default
+                from dnplab.io.h5 import save_h5 as _save_h5
+                ws_ = obj if isinstance(obj, dict) else {"__DNPDATA__": obj}
+                if form == "direct-omitted" and not ow:
+                    _save_h5(ws_, given)
+                elif form == "direct-positional":
+                    _save_h5(ws_, given, ow)
+                else:
+                    _save_h5(ws_, given, overwrite=ow)
             else:
                 dnp.save(obj, given, overwrite=ow)
         except BaseException as e:  # noqa: BLE001  (save raises Warning, a BaseException subclass of Exception)
